@@ -12,9 +12,12 @@ extra = sys.argv[5:]
 CM = {
     'fiber': ['-DYACLIB_FAULT=FIBER', '-DYACLIB_CXX_STANDARD=20', '-DYACLIB_FLAGS=CORO'],
     'plain': ['-DYACLIB_CXX_STANDARD=20', '-DYACLIB_FLAGS=CORO'],
+    'thread': ['-DYACLIB_FAULT=THREAD', '-DYACLIB_CXX_STANDARD=20', '-DYACLIB_FLAGS=CORO'],
+    'asan': ['-DYACLIB_CXX_STANDARD=20', '-DYACLIB_FLAGS=CORO;ASAN;UBSAN'],
     'tsan': ['-DYACLIB_CXX_STANDARD=20', '-DYACLIB_FLAGS=CORO;TSAN'],
 }
-FL = {'fiber': ['-std=c++20', '-fcoroutines'], 'plain': ['-std=c++20', '-fcoroutines'],
+FL = {'fiber': ['-std=c++20', '-fcoroutines'], 'plain': ['-std=c++20', '-fcoroutines'], 'thread': ['-std=c++20', '-fcoroutines'],
+      'asan': ['-std=c++20', '-fcoroutines', '-fsanitize=address,undefined', '-g', '-O1'],
       'tsan': ['-std=c++20', '-fcoroutines', '-fsanitize=thread', '-g', '-O1']}
 
 
@@ -36,7 +39,7 @@ def build_and_run(tag):
         r = sh([exe], timeout=300)
     except subprocess.TimeoutExpired:
         return 'TIMEOUT', ''
-    bad = r.returncode != 0 or 'ThreadSanitizer' in r.stderr
+    bad = r.returncode != 0 or 'ThreadSanitizer' in r.stderr or 'AddressSanitizer' in r.stderr or 'LeakSanitizer' in r.stderr
     return ('FAIL' if bad else 'PASS'), (r.stdout[-300:] + r.stderr[-300:])
 
 
